@@ -905,6 +905,136 @@ theorem srun_content {α : Type} (cap : Nat) : ∀ (es : List (SEv α)) (st : SS
     rw [h3, ← List.append_assoc]
     exact List.Perm.append_right _ h2
 
+/-! ## the sampler by numbers -/
+
+/-- `n` complete `Sampler.add` calls / one drain, as micro-step events -/
+def expandBulk : List SBulk → List (SEv Unit)
+  | [] => []
+  | .adds n :: es => (List.replicate n [SEv.evalPut, SEv.build, SEv.call ()]).flatten ++ expandBulk es
+  | .drain :: es => SEv.drain :: expandBulk es
+
+/-- the numbers of a sampler state -/
+def SState.counts {α : Type} (st : SState α) : SCount :=
+  ⟨(st.queues.getD st.cur []).length, st.batches.map List.length, st.dropped.length⟩
+
+theorem addsCount_succ (cap : Nat) (st : SCount) (n : Nat) :
+    addsCount cap (addsCount cap st 1) n = addsCount cap st (n + 1) := by
+  unfold addsCount
+  simp only
+  split <;> split <;> split <;> simp_all <;> omega
+
+theorem addsCount_zero (cap : Nat) (st : SCount) (h : st.queue ≤ cap) : addsCount cap st 0 = st := by
+  unfold addsCount; simp
+
+theorem addsCount_queue_le (cap : Nat) (st : SCount) (n : Nat) (h : st.queue ≤ cap) : (addsCount cap st n).queue ≤ cap := by
+  unfold addsCount
+  dsimp only
+  split
+  · simp only; omega
+  · simp
+
+theorem add_counts {α : Type} (cap : Nat) (st : SState α) (x : α) (h : SOne st) (hle : (st.queues.getD st.cur []).length ≤ cap) :
+    (srun cap [SEv.evalPut, SEv.build, SEv.call x] st).counts = addsCount cap st.counts 1 ∧ SOne (srun cap [SEv.evalPut, SEv.build, SEv.call x] st) := by
+  obtain ⟨h1, h2, q, h3⟩ := h
+  refine ⟨?_, sstep_one cap _ _ (sstep_one cap _ _ (sstep_one cap _ _ ⟨h1, h2, q, h3⟩))⟩
+  simp only [h1, h3, List.getD_cons_zero] at hle
+  simp only [srun, sstep, SState.counts, addsCount, h1, h3, List.getD_cons_zero]
+  by_cases hq : q.length < cap
+  · have : 1 ≤ cap - q.length := by omega
+    simp [hq, this, h1]
+  · have : ¬ 1 ≤ cap - q.length := by omega
+    simp [hq, this, h1]
+    omega
+
+theorem adds_counts {α : Type} (cap : Nat) (x : α) : ∀ (n : Nat) (st : SState α), SOne st → (st.queues.getD st.cur []).length ≤ cap →
+    (srun cap (List.replicate n [SEv.evalPut, SEv.build, SEv.call x]).flatten st).counts = addsCount cap st.counts n ∧
+    SOne (srun cap (List.replicate n [SEv.evalPut, SEv.build, SEv.call x]).flatten st)
+  | 0, st, h, hle => by simp [srun, addsCount_zero cap st.counts (by simpa [SState.counts] using hle), h]
+  | n + 1, st, h, hle => by
+    have ⟨h1, h2⟩ := add_counts cap st x h hle
+    have hle' : ((srun cap [SEv.evalPut, SEv.build, SEv.call x] st).queues.getD (srun cap [SEv.evalPut, SEv.build, SEv.call x] st).cur []).length ≤ cap := by
+      have := congrArg SCount.queue h1
+      have h5 := addsCount_queue_le cap st.counts 1 (by simpa [SState.counts] using hle)
+      rw [← this] at h5
+      simpa [SState.counts] using h5
+    have ⟨h3, h4⟩ := adds_counts cap x n _ h2 hle'
+    have hrun : srun cap (List.replicate (n + 1) [SEv.evalPut, SEv.build, SEv.call x]).flatten st =
+        srun cap (List.replicate n [SEv.evalPut, SEv.build, SEv.call x]).flatten (srun cap [SEv.evalPut, SEv.build, SEv.call x] st) := by
+      simp [List.replicate_succ, srun]
+    rw [hrun]
+    exact ⟨by rw [h3, h1, addsCount_succ], h4⟩
+
+theorem srun_append {α : Type} (cap : Nat) : ∀ (a b : List (SEv α)) (st : SState α), srun cap (a ++ b) st = srun cap b (srun cap a st)
+  | [], _, _ => rfl
+  | e :: a, b, st => by simp only [List.cons_append, srun]; exact srun_append cap a b _
+
+/-- the count model is the micro-step model seen through `counts` -/
+theorem sbulk_counts (cap : Nat) : ∀ (es : List SBulk) (st : SState Unit), SOne st → (st.queues.getD st.cur []).length ≤ cap →
+    (srun cap (expandBulk es) st).counts = es.foldl (sbulkStep cap) st.counts
+  | [], st, _, _ => rfl
+  | .adds n :: es, st, h, hle => by
+    have ⟨h1, h2⟩ := adds_counts cap () n st h hle
+    simp only [expandBulk, srun_append, List.foldl_cons, sbulkStep]
+    have hle' : ((srun cap (List.replicate n [SEv.evalPut, SEv.build, SEv.call ()]).flatten st).queues.getD
+        (srun cap (List.replicate n [SEv.evalPut, SEv.build, SEv.call ()]).flatten st).cur []).length ≤ cap := by
+      have := congrArg SCount.queue h1
+      have h5 := addsCount_queue_le cap st.counts n (by simpa [SState.counts] using hle)
+      rw [← this] at h5
+      simpa [SState.counts] using h5
+    rw [sbulk_counts cap es _ h2 hle', h1]
+  | .drain :: es, st, h, hle => by
+    obtain ⟨h1, h2, q, h3⟩ := h
+    simp only [expandBulk, srun, List.foldl_cons, sbulkStep]
+    have hone : SOne (sstep cap st SEv.drain) := sstep_one cap st _ ⟨h1, h2, q, h3⟩
+    rw [sbulk_counts cap es _ hone (by simp [sstep, h1, h3])]
+    congr 1
+    simp [sstep, SState.counts, h1, h3]
+
+/-! ## reading loop-control keys -/
+
+theorem mapM_option_zip {α β : Type} (f : α → Option β) : ∀ (ts : List α) (vs : List β), ts.mapM f = some vs →
+    vs.length = ts.length ∧ ∀ p ∈ ts.zip vs, f p.1 = some p.2
+  | [], vs, h => by
+    simp at h; subst h; simp
+  | t :: ts, vs, h => by
+    rw [List.mapM_cons] at h
+    cases hf : f t with
+    | none => simp [hf] at h
+    | some v =>
+      cases hr : ts.mapM f with
+      | none => simp [hf, hr] at h
+      | some vs' =>
+        simp [hf, hr] at h
+        subst h
+        have ⟨h1, h2⟩ := mapM_option_zip f ts vs' hr
+        refine ⟨by simp [h1], ?_⟩
+        intro p hp
+        simp only [List.zip_cons_cons, List.mem_cons] at hp
+        rcases hp with rfl | hp
+        · exact hf
+        · exact h2 p hp
+
+/-- an accepted task has, for every key, its own spelling if there is one and the element's value otherwise -/
+theorem parseTaskLoop_vals {par task : LoopSpec} {v : LoopVals} (h : parseTaskLoop par task = some v) :
+    v = { warmupIt := readKey task.warmupIt (parallelDefault par.warmupIt), iters := readKey task.iters (parallelDefault par.iters),
+          warmupT := readKey task.warmupT (parallelDefault par.warmupT), period := readKey task.period (parallelDefault par.period),
+          rampUp := readKey task.rampUp (parallelDefault par.rampUp) } := by
+  unfold parseTaskLoop at h
+  dsimp only at h
+  split at h
+  · cases h
+  · split at h
+    · cases h
+    · split at h
+      · cases h
+      · split at h
+        · injection h with h; exact h.symm
+        · split at h
+          · cases h
+          · split at h
+            · cases h
+            · injection h with h; exact h.symm
+
 /-! ## one client's run, all inputs bundled -/
 
 /-- A successful set-up of one client's run: every field is an arbitrary input, `exact` says the
